@@ -27,6 +27,11 @@ type C14TransportCase struct {
 	Buf  int      `json:"buf"`
 	IDs  []string `json:"ids"`
 	Cut  int      `json:"cut"` // the stream is fed in chunks of this many bytes (0: one chunk per message)
+	// WriteMs: the connection's write timeout; PauseMs[k]: the peer waits this long before request k, so that
+	// the connection grows older than the write timeout while it is in use (each write has its own deadline)
+	BackToBack bool    `json:"back_to_back,omitempty"`
+	WriteMs    int64   `json:"write_ms,omitempty"`
+	PauseMs    []int64 `json:"pause_ms,omitempty"`
 	// SetupNs (acceptor): the application's new-client callback takes this long before it creates the
 	// session; the peer does not wait and sends its Logon right after connecting
 	SetupNs int64 `json:"setup_ns,omitempty"`
@@ -68,7 +73,11 @@ func genC14Transport(t *rapid.T) *C14TransportCase {
 		}
 		c.Bad = append(c.Bad, bad)
 		c.BadBy = append(c.BadBy, rapid.IntRange(0, 300).Draw(t, "badBy"))
+		c.PauseMs = append(c.PauseMs, rapid.SampledFrom([]int64{0, 0, 300, 800, 2500}).Draw(t, "pauseMs"))
 	}
+	c.WriteMs = rapid.SampledFrom([]int64{60000, 60000, 500, 1000}).Draw(t, "writeMs")
+	// the peer sends all its requests back to back, without waiting for the answers
+	c.BackToBack = rapid.IntRange(0, 2).Draw(t, "backToBack") == 0
 	return c
 }
 
@@ -89,7 +98,7 @@ func checkC14Transport(c *C14TransportCase, rec *evid.Rec) (vs []pbt.Violation) 
 		var ir *rig.InitiatorRig
 		early := false // the Logon is on its way before the new-client callback has returned
 		if c.Role == "acceptor" {
-			ar = rig.StartAcceptor(c.Buf, time.Minute, func(h simplefixgo.AcceptorHandler) {
+			ar = rig.StartAcceptor(c.Buf, time.Duration(c.WriteMs)*time.Millisecond, func(h simplefixgo.AcceptorHandler) {
 				if c.SetupNs > 0 {
 					time.Sleep(time.Duration(c.SetupNs))
 				}
@@ -102,7 +111,7 @@ func checkC14Transport(c *C14TransportCase, rec *evid.Rec) (vs []pbt.Violation) 
 			conn = nc
 			early = c.SetupNs > 0
 		} else {
-			ir = rig.NewInitiatorRig(c.Buf, time.Minute)
+			ir = rig.NewInitiatorRig(c.Buf, time.Duration(c.WriteMs)*time.Millisecond)
 			ir.Serve()
 			if _, err := rig.InitiatorSession(cfg, ir.H, store, store); err != nil {
 				panic(err)
@@ -130,6 +139,9 @@ func checkC14Transport(c *C14TransportCase, rec *evid.Rec) (vs []pbt.Violation) 
 			synctest.Wait()
 		}
 		for k, id := range c.IDs {
+			if k < len(c.PauseMs) && c.PauseMs[k] > 0 && !c.BackToBack {
+				time.Sleep(time.Duration(c.PauseMs[k]) * time.Millisecond)
+			}
 			if k < len(c.Bad) && c.Bad[k] != "" {
 				seq++
 				feed((&rig.InMsg{Type: rig.THeartbeat, Seq: fmt.Sprint(seq), Damage: c.Bad[k], DamageBy: c.BadBy[k]}).Bytes())
@@ -137,8 +149,11 @@ func checkC14Transport(c *C14TransportCase, rec *evid.Rec) (vs []pbt.Violation) 
 			}
 			seq++
 			feed((&rig.InMsg{Type: rig.TTestRequest, Seq: fmt.Sprint(seq), Fields: []rig.Tok{rig.F(rig.TagTestReqID, id)}}).Bytes())
-			synctest.Wait()
+			if !c.BackToBack {
+				synctest.Wait()
+			}
 		}
+		synctest.Wait()
 		stream = conn.Stream()
 		if ir != nil {
 			ir.H.Stop()
@@ -190,6 +205,18 @@ func checkC14Transport(c *C14TransportCase, rec *evid.Rec) (vs []pbt.Violation) 
 	}
 	if c.SetupNs > 0 {
 		rec.Hist("transport:logon-sent-while-the-new-client-callback-runs")
+	}
+	if c.BackToBack {
+		rec.Hist("transport:requests-back-to-back")
+	}
+	var paused int64
+	for _, p := range c.PauseMs {
+		if !c.BackToBack {
+			paused += p
+		}
+	}
+	if paused > c.WriteMs {
+		rec.Hist("transport:connection-older-than-the-write-timeout")
 	}
 	long := false
 	for _, id := range c.IDs {
